@@ -119,13 +119,22 @@ def unfold_size(tables, m, S=frozenset(), cap=10**7):
 # --------------------------------------------------------------- one case
 def chain_case(p, m, S, cid, extra=None):
     from decaylanguage.dec.dec import DecayNotFound
-    mothers = closure(p, m)
-    obs = {"tables": obs_tables(p, mothers)}
+    try:
+        mothers = closure(p, m)
+        obs = {"tables": obs_tables(p, mothers)}
+    except Exception as e:  # noqa: BLE001   (the tables themselves cannot be listed: an observation, judged as such)
+        obs = {"tables": []}
+        res = {"notfound": False, "entries": [{"bf": "?tables-raised " + type(e).__name__}]}
+        c = {"prop": "C09", "cid": cid, "obs": obs, "m": m, "S": sorted(S), "res": res}
+        c.update(extra or {})
+        return c
     try:
         ch = p.build_decay_chains(m, stable_particles=list(S))
         res = {"notfound": False, "entries": proj_chain(ch[m]) if list(ch.keys()) == [m] else [{"bf": "?key"}]}
     except DecayNotFound:
         res = {"notfound": True, "entries": []}
+    except Exception as e:  # noqa: BLE001
+        res = {"notfound": False, "entries": [{"bf": "?raised " + type(e).__name__}]}
     c = {"prop": "C09", "cid": cid, "obs": obs, "m": m, "S": sorted(S), "res": res}
     c.update(extra or {})
     return c
